@@ -74,8 +74,10 @@ type pipeJob struct {
 	Pkgs    []string          `json:"pkgs"`
 	// FinalPrefix: when set, codegen.Transforms.FinalPasses = [PrefixObjectNames{Prefix}] - the programmatic way of
 	// configuring a name-changing transformation that runs at the end of EVERY language's chain
-	FinalPrefix string    `json:"final_prefix,omitempty"`
-	Sched       *schedule `json:"sched,omitempty"`
+	FinalPrefix string `json:"final_prefix,omitempty"`
+	// Again: call Run a second time on the same Pipeline value and record that file set too
+	Again bool      `json:"again,omitempty"`
+	Sched *schedule `json:"sched,omitempty"`
 }
 
 type schedule struct {
@@ -106,6 +108,9 @@ type pipeResult struct {
 	IR    map[string]string `json:"ir"`    // view -> sha256
 	Log   []occJSON         `json:"log,omitempty"`
 	Calls int               `json:"calls"`
+
+	// AgainDiffers: the second Run on the same Pipeline value gave other files than the first (or failed)
+	AgainDiffers bool `json:"again_differs,omitempty"`
 
 	content map[string][]byte
 	irText  map[string][]byte
@@ -196,6 +201,26 @@ func runOnce(job *pipeJob, s *schedule, keep bool) (res *pipeResult) {
 			res.content[f.RelativePath] = f.Data
 		}
 	}
+	if job.Again {
+		// the same Pipeline value asked to generate a second time (library use; state kept on the pipeline, its cached
+		// veneers rewriter, the passes' own fields ...): the second file set is one more observable of the run
+		fs2, err2 := p.Run(ctx)
+		h := "error: "
+		if err2 == nil {
+			again := map[string]string{}
+			for _, f := range fs2.AsFiles() {
+				again[f.RelativePath] = sha(f.Data)
+			}
+			h = hashMap(again)
+			if h != hashMap(res.Files) {
+				res.AgainDiffers = true
+			}
+		} else {
+			h += pipeFirstLine(err2.Error())
+			res.AgainDiffers = true
+		}
+		res.IR["generate-again"] = h
+	}
 	if !job.Inspect {
 		return res
 	}
@@ -245,6 +270,24 @@ func runOnce(job *pipeJob, s *schedule, keep bool) (res *pipeResult) {
 		res.IR[v.name] = sha(b)
 		if keep {
 			res.irText[v.name] = b
+		}
+		// cog inspect --ir converters (one builder at a time on the command line: all of them here)
+		if nk, ok := v.lang.(interface {
+			NullableKinds() verifapi.NullableConfig
+		}); ok && len(c.Builders) > 0 {
+			var convs []any
+			for _, bld := range c.Builders {
+				convs = append(convs, verifapi.NewConverterGenerator(nk.NullableKinds()).FromBuilder(c, bld))
+			}
+			cb, err := json.Marshal(convs)
+			if err != nil {
+				res.Err = v.name + ": converters json: " + err.Error()
+				return res
+			}
+			res.IR["converters:"+strings.TrimPrefix(v.name, "inspect:")] = sha(cb)
+			if keep {
+				res.irText["converters:"+strings.TrimPrefix(v.name, "inspect:")] = cb
+			}
 		}
 	}
 	return res
@@ -592,13 +635,22 @@ func (e *explorer) run(job *pipeJob, sc *schedule, keep bool) (res *pipeResult) 
 func (e *explorer) job(job *pipeJob) {
 	base := e.run(job, nil, true)
 	e.runs++
-	again := e.run(job, nil, false)
+	// the second baseline also asks the SAME Pipeline value to generate twice
+	jobAgain := *job
+	jobAgain.Again = true
+	again := e.run(&jobAgain, nil, false)
 	e.runs++
+	againDiffers, againHash := again.AgainDiffers, again.IR["generate-again"]
+	delete(again.IR, "generate-again")
 	outcomes := map[string]int{}
 	baseOut := outcomeOf(job, base)
 	outcomes[baseOut.key()]++
 	summary := J{"kind": "job", "job": job.ID, "err": base.Err, "occurrences": len(base.Log), "calls": base.Calls,
 		"nfiles": len(base.Files), "views": len(base.IR)}
+	if againDiffers {
+		e.emit(finding{Job: job.ID, Site: "same-pipeline-twice", Class: "files", Sched: nil, Mode: "second-run-on-the-same-pipeline", Confirm: true,
+			Detail: map[string]any{"first_difference": "calling Run twice on one Pipeline value gives two different file sets (" + againHash + ")"}})
+	}
 	if cl, det := pipeDiffClasses(job, base, again); len(cl) > 0 {
 		// the same schedule gave two different results: nondeterminism outside the scheduler's control
 		for _, c := range cl {
